@@ -758,10 +758,16 @@ theorem symbolNames_match : ∀ s ∈ symbolNames, matchesCdd s.toList = true :=
 theorem resolve_cwd_irrelevant (pe pe' : String → Bool) (uf : String → Option Rows) (sys : String) :
     resolve ⟨pe, uf⟩ sys = resolve ⟨pe', uf⟩ sys := rfl
 
-theorem resolve_user_file (env : Env) (sys : String) (rows : Rows) (h : env.userFile sys = some rows) :
+/-- a name that is not a packaged system and names a readable file: that file is the relations -/
+theorem resolve_user_file (env : Env) (sys : String) (rows : Rows) (e : Err) (hp : packaged sys = .error e)
+    (h : env.userFile sys = some rows) : resolve env sys = .ok rows := by simp [resolve, hp, h]
+
+/-- a packaged system name means the packaged relations, whatever files exist -/
+theorem resolve_packaged (env : Env) (sys : String) (rows : Rows) (h : packaged sys = .ok rows) :
     resolve env sys = .ok rows := by simp [resolve, h]
 
-theorem resolve_packaged (env : Env) (sys : String) (h : env.userFile sys = none) :
-    resolve env sys = packaged sys := by simp [resolve, h]
+/-- … so for a packaged name the WHOLE environment (working directory) is irrelevant -/
+theorem resolve_packaged_env_irrelevant (env env' : Env) (sys : String) (rows : Rows) (h : packaged sys = .ok rows) :
+    resolve env sys = resolve env' sys := by simp [resolve, h]
 
 end Cij.Fill
